@@ -1,5 +1,5 @@
 (* Proofs/LeafPremFirst.v — C01, the premises of the inline phase, part 9: the clause `first line not blank`, for the
-   option sets WITHOUT tables (extension.table = false; try_opening_block is then never called).
+   every option set (tables included: the cells are not Paragraph / Heading; the preface paragraph is LeafPremPreface).
 
    Per-node clause  Bn i :=  the value of i is Paragraph or Heading -> the content holds no CR and every line of it is
                              non-blank (ALS, Proofs/LeafPremBlank.v)
@@ -15,7 +15,7 @@ From V Require Import Base.Bytes Base.Res Gen.StrLeafGen Gen.FeedConst Gen.Nodes
   Model.AutolinkLeaf Model.Scan Spec.EscapeSpec Model.Feed Model.FrontMatter Model.RefDef Model.Blocks Spec.LineEndings Proofs.FeedProofs Proofs.StrLeafProofs
   Proofs.BlocksProofs Proofs.BlocksPos Proofs.BlocksCursor Proofs.BlocksTotal Proofs.BlocksTotal2Safe Proofs.BlocksTotal2Tree Proofs.BlocksTotal2Walk
   Proofs.BlocksTotal3Tab Proofs.BlocksTotal4Safe Proofs.BlocksTotal4Cur Proofs.BlocksTotal4Frame Proofs.BlocksTotal4Walk Proofs.BlocksTotal4Line
-  Proofs.BlocksTotal6Val Proofs.LeafPremBytes Proofs.LeafPremBlank Proofs.LeafPremPct Proofs.LeafPremCur.
+  Proofs.BlocksTotal6Val Proofs.LeafPremBytes Proofs.LeafPremRow Proofs.LeafPremBlank Proofs.LeafPremPreface Proofs.LeafPremPct Proofs.LeafPremCur.
 Import ListNotations.
 Local Open Scope string_scope.
 Local Open Scope list_scope.
@@ -226,6 +226,106 @@ Proof. unfold check_open_blocks. intros H P. bigo H. Qed.
 #[export] Hint Resolve check_open_blocks_bi : bi.
 
 
+(* ================================================================== tables *)
+Lemma try_inserting_bi st c po st' :
+  try_inserting_table_header_paragraph st c po = Ok st' ->
+  (forall cn, get st c = Ok cn -> is_paragraph cn = true /\ exists p, firstn po (bi_content (binf cn)) = p ++ [x0a]) ->
+  BI st -> BI st'.
+Proof.
+  unfold try_inserting_table_header_paragraph. intros H Hc P.
+  destruct (get st c) as [cn| |] eqn:G; cbn [bind] in H; try discriminate H.
+  destruct (Hc _ eq_refl) as [Hp [pp Epp]].
+  pose proof (is_paragraph_val _ Hp) as Bv. pose proof (get_bn _ _ _ P G) as Qc.
+  unfold bval in Bv. unfold Bn in Qc. rewrite Bv in Qc. specialize (Qc eq_refl). destruct Qc as [Cc Ac].
+  mstep H; [discriminate H|]. cbv zeta in H. rewrite trim_ok in H. cbn [bind] in H.
+  mon H; monall; try exact P.
+  match goal with M : modify_info _ _ _ = Ok ?s |- _ => assert (P1 : BI s) end.
+  { eapply modify_info_bi; [eassumption | | apply BI_st_next; exact P]. bn_side. }
+  eapply edit_root_bi; [eassumption | exact P1 |].
+  intros pk pre x post K. cbv beta. destruct (can_contain pk KParagraph); [|exact K].
+  apply Forall_app in K. destruct K as [K1 K2]. apply Forall_app. split; [exact K1|].
+  cbn [app]. constructor; [|exact K2]. apply all_info_node. split; [|constructor].
+  unfold Bn. cbn. intros _.
+  match goal with U : Blocks.from_utf8 _ _ = Ok _ |- _ => apply from_utf8_ok in U; subst end.
+  split.
+  - intros bb Hb. apply in_trim, in_unescape_pipes, in_firstn in Hb. now apply Cc.
+  - eapply ALS_preface; eassumption.
+Qed.
+
+Lemma header_cells_bn : forall cells id ln sl sc po l, header_cells cells id ln sl sc po = Ok l -> Forall (all_info Bn) l.
+Proof.
+  induction cells as [|c r IH]; intros id ln sl sc po l H; cbn [header_cells] in H.
+  - inversion H. constructor.
+  - mon H. constructor; [|eapply IH; eassumption].
+    apply all_info_node. split; [|constructor]. apply Bn_trivial. reflexivity.
+Qed.
+
+Lemma try_opening_header_bi o st c line r st' :
+  try_opening_header o st c line = Ok (r, st') ->
+  (forall cn, get st c = Ok cn -> is_paragraph cn = true) -> BI st -> BI st'.
+Proof.
+  unfold try_opening_header. intros H Hc P.
+  destruct (get st c) as [cn0| |] eqn:G0; cbn [bind] in H; try discriminate H.
+  pose proof (Hc _ eq_refl) as Hp. clear Hc.
+  mon H; monall; try exact P;
+  match goal with R : row (bi_content (binf cn0)) _ = Ok (Some (_, _)) |- _ => destruct (row_ok _ _ _ _ R) as [Fc Po] end;
+  match goal with
+  | I : try_inserting_table_header_paragraph _ _ ?po = Ok ?s |- _ =>
+    assert (P1 : BI s)
+      by (eapply try_inserting_bi; [exact I | intros cn' G'; rewrite G0 in G'; inversion G'; subst; split; [exact Hp|];
+          destruct Po as [Po|Po]; [exfalso; subst; match goal with L : Nat.ltb 0 0 = true |- _ => discriminate L end | exact Po] | exact P])
+  | _ => pose proof P as P1
+  end;
+  (eapply edit_root_bi; [eassumption | eauto 10 with bi |]);
+  intros pk pre x post K; cbv beta; (destruct (is_paragraph x); [|exact K]);
+  apply Forall_app in K; destruct K as [K1 K2]; inversion K2; subst;
+  apply Forall_app; (split; [exact K1|]); cbn [app]; (constructor; [|assumption]);
+  apply all_info_node; (split; [apply Bn_trivial; reflexivity|]);
+  (constructor; [|constructor]); apply all_info_node;
+  (split; [apply Bn_trivial; reflexivity|]);
+  eapply header_cells_bn; eassumption.
+Qed.
+
+Lemma row_cells_bn : forall n cells id ln sc lc l lc', row_cells n cells id ln sc lc = Ok (l, lc') -> Forall (all_info Bn) l.
+Proof.
+  induction n as [|m IH]; intros cells id ln sc lc l lc' H; cbn [row_cells] in H.
+  - destruct cells; inversion H; subst; constructor.
+  - destruct cells as [|c r]; [inversion H; subst; constructor|].
+    mon H. repeat match goal with p : (_ * _)%type |- _ => destruct p end. cbn [fst snd] in *.
+    constructor; [|eapply IH; eassumption]. apply all_info_node. split; [|constructor]. apply Bn_trivial. reflexivity.
+Qed.
+
+Lemma filler_cells_bn : forall n id ln lc, Forall (all_info Bn) (filler_cells n id ln lc).
+Proof.
+  induction n as [|m IH]; intros id ln lc; cbn [filler_cells]; constructor; [|apply IH].
+  apply all_info_node. split; [|constructor]. apply Bn_trivial. reflexivity.
+Qed.
+
+Lemma try_opening_row_bi o st c t line r st' : try_opening_row o st c t line = Ok (r, st') -> BI st -> BI st'.
+Proof.
+  unfold try_opening_row. intros H P.
+  mon H; monall; try exact P.
+  match goal with M : modify _ _ _ = Ok ?s |- _ => assert (BI s) end.
+  { eapply modify_bi; [apply BI_st_next; exact P | eassumption |].
+    intros nn Fn An. destruct nn as [i ch]. apply all_info_node in An. destruct An as [Ai Ak].
+    apply all_info_node. split; [apply Bn_trivial; reflexivity|].
+    apply Forall_app. split; [exact Ak|]. constructor; [|constructor].
+    apply all_info_node. split; [apply Bn_trivial; reflexivity|].
+    apply Forall_app. split; [eapply row_cells_bn; eassumption | apply filler_cells_bn]. }
+  eauto 10 with bi.
+Qed.
+
+Lemma try_opening_block_bi o st c line r st' : try_opening_block o st c line = Ok (r, st') -> BI st -> BI st'.
+Proof.
+  unfold try_opening_block. intros H P.
+  destruct (get st c) as [cn| |] eqn:G; cbn [bind] in H; try discriminate H.
+  destruct (bval cn) eqn:Bv; try (inversion H; subst; exact P).
+  - eapply try_opening_header_bi; [exact H | | exact P].
+    intros cn' G'. rewrite G in G'. inversion G'; subst. unfold is_paragraph. now rewrite Bv.
+  - eapply try_opening_row_bi; [exact H | exact P].
+Qed.
+
+(* ================================================================== description lists *)
 Lemma reopen_bi : forall fuel st id st', reopen_ast_nodes fuel st id = Ok st' -> BI st -> BI st'.
 Proof. induction fuel as [|f IH]; intros st id st' H P; cbn [reopen_ast_nodes] in H; bigo H. Qed.
 #[export] Hint Resolve reopen_bi : bi.
@@ -255,7 +355,6 @@ Qed.
 
 Section handlers.
 Variables (o : bopts) (line : bytes).
-Hypothesis HT : bo_table o = false.
 
 Lemma handle_alert_bi st c ind b c' st' : handle_alert o st c line ind = Ok (b, c', st') -> BI st -> BI st'.
 Proof. unfold handle_alert. intros H P. bigo H. Qed.
@@ -363,7 +462,9 @@ Proof.
   destruct hd.
   - bigo H.
   - destruct (negb (Nat.leb code_indent (indent s0)) && bo_table o) eqn:Tb.
-    + rewrite HT, andb_false_r in Tb. discriminate Tb.
+    + destruct (try_opening_block o s1 c1 line) as [[tr s2]| |] eqn:TO; cbn [bind] in H; try discriminate H.
+      assert (P2 : BI s2) by (eapply try_opening_block_bi; eassumption).
+      destruct tr; bigo H.
     + bigo H.
 Qed.
 Hint Resolve open_new_blocks_step_bi : bi.
@@ -523,10 +624,10 @@ End text.
 
 (* ================================================================== process_line, parse_blocks *)
 Lemma process_line_bi o st line0 st' :
-  bo_table o = false -> lf_terminated (norm_line line0) -> LK (norm_line line0) -> BlocksTotal2Walk.LI o st ->
+  lf_terminated (norm_line line0) -> LK (norm_line line0) -> BlocksTotal2Walk.LI o st ->
   process_line o st line0 = Ok st' -> BI st -> BI st'.
 Proof.
-  intros HT LN HK L0 H P. unfold process_line in H. cbv zeta in H.
+  intros LN HK L0 H P. unfold process_line in H. cbv zeta in H.
   match type of H with bind (check_open_blocks o ?sa ?lx) _ = _ =>
     assert (La : BlocksTotal2Walk.LI o sa) by (eapply LI_eqtree; [|exact L0]; repeat split);
     assert (Pa : BI sa) by (apply BI_st_line_number, BI_st_cur, BI_st_curline; exact P);
@@ -559,16 +660,16 @@ Proof.
   - cbn [bind] in H. inversion H; subst. apply BI_st_curline, BI_st_last_line_length. exact P1.
 Qed.
 
-Lemma process_lines_bi o : bo_table o = false -> forall ls st st',
+Lemma process_lines_bi o : forall ls st st',
   Forall (fun l => lf_terminated (norm_line l) /\ LK (norm_line l)) ls -> BlocksTotal2Walk.LI o st ->
   process_lines o st ls = Ok st' -> BI st -> BI st'.
 Proof.
-  intro HT. induction ls as [|l r IH]; intros st st' F L0 H P; cbn [process_lines] in H.
+  induction ls as [|l r IH]; intros st st' F L0 H P; cbn [process_lines] in H.
   - now inversion H; subst.
   - inversion F as [|? ? Hh Hr]; subst. destruct Hh as [Hl Hk].
     destruct (process_line o st l) as [s1| |] eqn:E; cbn [bind] in H; try discriminate H.
     pose proof (safe_ok _ _ _ (process_line_spec' o st l L0) E) as L1.
-    eapply IH; [exact Hr | exact L1 | exact H|]. exact (process_line_bi o st l s1 HT Hl Hk L0 E P).
+    eapply IH; [exact Hr | exact L1 | exact H|]. exact (process_line_bi o st l s1 Hl Hk L0 E P).
 Qed.
 
 Lemma BI_init : BI init_state.
@@ -591,9 +692,9 @@ Proof.
 Qed.
 
 (* every Paragraph / Heading of the tree the block phase answers: no CR, every line non-blank (tables off) *)
-Theorem parse_blocks_nonblank o x r : bo_table o = false -> parse_blocks o x = Ok r -> all_info Bn (br_root r).
+Theorem parse_blocks_nonblank o x r : parse_blocks o x = Ok r -> all_info Bn (br_root r).
 Proof.
-  intros HT H. unfold parse_blocks in H.
+  intro H. unfold parse_blocks in H.
   destruct (front_matter_prologue o init_state x) as [[st rest]| |] eqn:E; cbn [bind] in H; try discriminate H.
   pose proof (front_matter_prologue_bi _ _ _ _ E) as P.
   pose proof (safe_ok _ _ _ (front_matter_prologue_spec o init_state x (LI_init o)) E) as L0. cbn [fst] in L0.
